@@ -184,7 +184,7 @@ func (p *Parser) If(t *token.Token) (ast.IfStat, *token.Token) {
 			ifStat = ifStat.WithElse(endTok, elseBlock)
 			return ifStat, p.Scan()
 		default:
-			tokenError(t, "'elseif' or 'end' or 'else'")
+			tokenError(endTok, "'elseif' or 'end' or 'else'")
 		}
 	}
 }
